@@ -284,7 +284,8 @@ class Game(AsyncMode):
         del kwargs
         self._stopping_modes = []
         for mode in self.machine.modes.values():
-            if mode.is_game_mode and mode.active:
+            if mode.is_game_mode and (mode.active or mode.starting):
+                # a game mode which is still starting is stopped as soon as its start is complete
                 self._stopping_modes.append(mode)
                 mode.stop(callback=partial(self._game_mode_stopped, mode=mode))
 
